@@ -1,4 +1,5 @@
 """C05 — content hash, reference hash, event-id format: tables, size-limit atom, pipeline order by data provenance."""
+import re
 from .. import dex as D, world as W, mir as M
 from . import tables as T, util as U
 
@@ -40,7 +41,7 @@ def check_limit(ctx, w, f, paths, rule, key, json_marker):
     size_err = [p for p in paths if p.kind == "ret" and U.is_err(p.ret) and D.show(p.ret).endswith("Error::PduSize)")]
     ctx.check(bool(size_err), rule, key + ":refusal-exists", w.where(f), bad_msg="no path returns Error::PduSize")
     for n, expect_ok in ((65535, True), (65536, False), (0, True), (1 << 20, False)):
-        val = U.int_valuation({"String::len(*": n, "len(*": n})
+        val = U.int_valuation({"re:^(String::|str::)?len\\(": n})   # the length of the String itself or of a &str view of it
         got_ok = [p for p in D.evaluate(ok_paths, val)]
         got_err = [p for p in D.evaluate(size_err, val)]
         good = bool(got_ok) == expect_ok and bool(got_err) == (not expect_ok)
@@ -75,7 +76,7 @@ def run(ctx):
     # Base64::<C,B>::CONFIG: starts from NO_PAD and never re-enables encode padding
     ctx.rule("C05.nopad", "Base64::CONFIG is derived from general_purpose::NO_PAD (encode_padding = false) only through decode-side "
                           "modifiers; Base64::encode uses that engine; Base64::ENGINE is built from C::CONF's alphabet and CONFIG")
-    dex = D.Dex(w.lookup, adt_discr=w.adt_discr, effects=lambda n: True)
+    dex = D.Dex(w.lookup, adt_discr=w.adt_discr, effects=lambda n: True, inline=U.sig_inline)
     f = w.fn("ruma_common::serde::base64::Base64::<C, B>::CONFIG")
     ps = dex.paths(f, [])
     good = len(ps) == 1
@@ -100,18 +101,30 @@ def run(ctx):
     # ---- canonical_json_with_fields_to_remove ---------------------------------------------------
     ctx.rule("C05.remove", "canonical_json_with_fields_to_remove serializes (compact serde_json::to_string) a clone of the object from which "
                            "every element of `fields`, and nothing else, was removed")
-    dexc = D.Dex(w.lookup, adt_discr=w.adt_discr, effects=lambda n: True, models={
+    dexc = D.Dex(w.lookup, adt_discr=w.adt_discr, effects=lambda n: True, inline=U.sig_inline, models={
         "<alloc::collections::btree::map::BTreeMap<K, V, A> as core::clone::Clone>::clone": m_clone})
     f = w.fn(f"{FN}::canonical_json_with_fields_to_remove")
     ps = dexc.paths(f, [D.sym("object"), D.sym("fields")])
     okp = [p for p in ps if p.kind == "ret" and U.is_ok(p.ret)]
-    ctx.floor("serialize paths", len(okp), 2)
+    ctx.floor("serialize paths", len(okp), 1)
     for p in okp:
         iters = len([e for e in p.effects if e[0].endswith("Iterator>::next")])
         removes = [e for e in p.effects if e[0].endswith("BTreeMap::<K, V, A>::remove")]
         ser = [e for e in p.effects if "to_string" in e[0] or "to_vec" in e[0] or "to_writer" in e[0]]
         muts = [e for e in p.effects if e[0].rsplit("::", 1)[-1] in ("insert", "clear", "retain", "append", "extend", "entry", "pop_first", "pop_last")]
-        good = not muts and len(ser) == 1 and ser[0][0] == "serde_json::ser::to_string" and D.show(ser[0][1][0]) == "clone(object)"
+        good = len(ser) == 1 and ser[0][0] == "serde_json::ser::to_string" and D.show(ser[0][1][0]) == "clone(object)"
+        if len(muts) == 1 and muts[0][0].endswith("::retain") and not removes:
+            # iterator form: clone.retain(|key, _| !fields.contains(&key))
+            a = U.shows(muts[0][1])
+            m = re.match(r"^closure\[([^\]]+)\]\{_ref__fields=fields\}$", a[1]) if len(a) == 2 and a[0] == "clone(object)" else None
+            clo = w.lookup(m.group(1)) if m else None
+            cps = dexc.paths(clo, [D.sym("env"), D.sym("k"), D.sym("v")]) if clo is not None and "body" in clo else []
+            good &= len(cps) == 1 and cps[0].kind == "ret" and D.show(cps[0].ret) == "!(slice::contains(env._ref__fields, k))"
+            good &= D.show(p.ret) == "Result::Ok(ser::to_string(clone(object)).Ok.0)"
+            ctx.check(good, "C05.remove", "C05.remove:retain-form", w.where(f),
+                      bad_msg=f"unexpected effects {[(e[0].rsplit('::', 1)[-1], U.shows(e[1])) for e in p.effects]}"[:400])
+            continue
+        good &= not muts
         good &= len(removes) == iters - 1
         for e in removes:
             a = U.shows(e[1])
